@@ -3,9 +3,13 @@ package query
 //verif:property C12
 //verif:pkg lib/query
 //verif:harness VerifC12WideJoin mode=bv tier=quick split=2
+//verif:setup VerifC12RaggedSetup
+//verif:harness VerifC12RaggedSources mode=bv tier=quick split=2
 
 import (
 	"strconv"
+
+	"github.com/mithrandie/csvq/lib/parser"
 
 	"github.com/mithrandie/csvq/lib/value"
 )
@@ -83,5 +87,64 @@ func VerifC12WideJoin() {
 		}
 	}
 	verifObserve("columns", int64(len(gotN)))
+	verifReach("end")
+}
+
+var verifC12RaggedSel [4][]parser.Statement
+var verifC12RaggedFile = [4]string{"r.json", "r.jsonl", "r.ltsv", "r.json"}
+var verifC12RaggedText = [4]string{
+	"[{\"a\":\"1\"},{\"c\":\"2\",\"b\":\"3\",\"a\":\"4\"},{\"e\":\"5\",\"d\":\"6\",\"f\":\"7\"}]",
+	"{\"a\":\"1\"}\n{\"c\":\"2\",\"b\":\"3\",\"a\":\"4\"}\n{\"e\":\"5\",\"d\":\"6\",\"f\":\"7\"}\n",
+	"a:1\tz:0\nc:2\tb:3\ta:4\ne:5\td:6\tf:7\n",
+	"{\"rows\":[{\"a\":\"1\"},{\"c\":\"2\",\"b\":\"3\",\"a\":\"4\"},{\"e\":\"5\",\"d\":\"6\",\"f\":\"7\"}]}",
+}
+var verifC12RaggedCols = [4]string{"a,c,b,e,d,f,", "a,c,b,e,d,f,", "a,z,c,b,e,d,f,", "a,c,b,e,d,f,"}
+
+func VerifC12RaggedSetup() {
+	verifC12RaggedSel[0] = verifParse("select * from `r.json`;")
+	verifC12RaggedSel[1] = verifParse("select * from `r.jsonl`;")
+	verifC12RaggedSel[2] = verifParse("select * from `r.ltsv`;")
+	verifC12RaggedSel[3] = verifParse("select * from json_table('rows', `r.json`);")
+}
+
+// Sources whose records do not all have the same members (JSON array of objects, JSON Lines, LTSV, a
+// JSON query): the columns of the loaded table come in the order in which the names first appear in the
+// text, under every iteration order of the maps the loaders use; the cells follow their columns.
+func VerifC12RaggedSources() {
+	fi := verifChoice("source", 4)
+	verifFileWrite(verifC12RaggedFile[fi], verifC12RaggedText[fi])
+	tx := verifNewTx()
+	tx.Flags.Quiet = true
+	proc := NewProcessor(tx)
+	verifMapOrder(true)
+	_, err := proc.Execute(ContextForStoringResults(verifCtx()), verifC12RaggedSel[fi])
+	verifMapOrder(false)
+	verifAssert("the source loads", err == nil && len(tx.SelectedViews) == 1)
+	if err != nil || len(tx.SelectedViews) != 1 {
+		return
+	}
+	v := tx.SelectedViews[0]
+	cols := ""
+	for _, h := range v.Header {
+		cols += h.Column + ","
+	}
+	verifAssert("columns in the order of first appearance", cols == verifC12RaggedCols[fi])
+	verifAssert("three records", v.RecordLen() == 3)
+	if cols == verifC12RaggedCols[fi] && v.RecordLen() == 3 {
+		at := func(r int, name string) string {
+			for i, h := range v.Header {
+				if h.Column == name {
+					if s, ok := v.RecordSet[r][i][0].(*value.String); ok {
+						return s.Raw()
+					}
+					return "-"
+				}
+			}
+			return "?"
+		}
+		verifAssert("cells under their columns", at(0, "a") == "1" && at(1, "a") == "4" && at(1, "b") == "3" && at(1, "c") == "2" && at(2, "d") == "6" && at(2, "e") == "5" && at(2, "f") == "7" && at(0, "c") == "-" && at(2, "a") == "-")
+	}
+	_ = proc.ReleaseResourcesWithErrors()
+	verifObserve("columns", int64(len(v.Header)))
 	verifReach("end")
 }
